@@ -96,6 +96,11 @@ def cases(ctx):
                 # second use of the same Crop object: sow, grow, reap (which deletes the crop), sow again
                 yield {"resow": True, "n0": n0, "n1": n0 if rr.random() < 0.7 else n1, "mode": mode, "val": val, "reload": False,
                        "cases": rr.random() < 0.4, "after_reap": True}
+    for n0 in range(5, ctx.pick(14, 40)):
+        # a crop sown by batch COUNT (with a remainder) and sown again with one setting fewer, by the same object or a reloaded one
+        for k in range(2, n0 - 1):
+            if n0 % k:
+                yield {"resow": True, "n0": n0, "n1": n0 - 1, "mode": "num_batches", "val": k, "reload": bool((n0 + k) % 2), "cases": bool(k % 3 == 0)}
     for n0 in range(2, ctx.pick(12, 40)):
         # the same Crop object of a farmer crop sown twice with the same number of settings
         yield {"resow": True, "n0": n0, "n1": n0, "mode": ["num_batches", "batchsize"][n0 % 2], "val": 1 + n0 % 4, "reload": False,
@@ -253,14 +258,22 @@ def run_resow(ctx, case):
         B = len(files)
         if sorted(files) != list(range(1, B + 1)) or any(v == 0 for v in sizes.values()):
             bad.append("batch ids %s / sizes %s after the re-sow" % (sorted(files), sizes))
-        if case["n1"] == case["n0"]:
-            # the same request as the first time: the same size / count must be honoured
-            N = case["n0"]
+        if True:
+            # an accepted sow - the same settings again, or another number of them - honours the size / count asked for
+            N = case["n1"]
             wantB = min(case["val"], N) if case["mode"] == "num_batches" else math.ceil(N / case["val"])
-            if B != wantB or (case["mode"] == "num_batches" and sizes and max(sizes.values()) - min(sizes.values()) > 1) \
+            # (a crop whose FIRST sow divided evenly - n0 a multiple of the count - holds the same three numbers as one that
+            #  was given the batch size: it cannot know which was asked for, and cutting by that size is the other valid reading)
+            ambiguous = case["mode"] == "num_batches" and case["n1"] != case["n0"] and case["n0"] % min(case["val"], case["n0"]) == 0 \
+                and sizes and max(sizes.values()) <= case["n0"] // min(case["val"], case["n0"])
+            if ambiguous:
+                ctx.count("resows_of_evenly_divided_crops_read_as_sized")
+            elif B != wantB or (case["mode"] == "num_batches" and sizes and max(sizes.values()) - min(sizes.values()) > 1) \
                     or (case["mode"] == "batchsize" and sizes and max(sizes.values()) > case["val"]):
-                bad.append("sowing the same %d settings again%s (%s=%d) gave %d batches of sizes %s, the request means %d" % (
-                    N, " after reaping" if case.get("after_reap") else "", case["mode"], case["val"], B, sorted(sizes.values()), wantB))
+                bad.append("sowing %s %d settings%s (%s=%d) gave %d batches of sizes %s, the request means %d batches%s" % (
+                    "the same" if case["n1"] == case["n0"] else "then", N, " after reaping" if case.get("after_reap") else "", case["mode"], case["val"], B,
+                    sorted(sizes.values()), wantB, " whose sizes differ by at most one" if case["mode"] == "num_batches" else " of at most that size"))
+            ctx.count("accepted_resows_judged_against_the_request")
         try:
             with quiet():
                 c3 = xyzpy.Crop(name="c7", parent_dir=tmp)
